@@ -43,7 +43,9 @@ func (p *simpleExpressionPlanner) tagsV2Planner() (shared.SQLRequestPlanner, err
 		return nil, err
 	}
 
-	p.analyze()
+	if err = p.analyze(); err != nil {
+		return nil, err
+	}
 
 	var res shared.SQLRequestPlanner = &AttrConditionPlanner{
 		Main:           NewInitIndexPlanner(false),
@@ -64,7 +66,9 @@ func (p *simpleExpressionPlanner) valuesV2Planner(key string) (shared.SQLRequest
 		return nil, err
 	}
 
-	p.analyze()
+	if err = p.analyze(); err != nil {
+		return nil, err
+	}
 
 	if p.cond == nil {
 		return &AllValuesRequestPlanner{Key: key}, nil
@@ -89,7 +93,9 @@ func (p *simpleExpressionPlanner) planner() (shared.SQLRequestPlanner, error) {
 		return nil, err
 	}
 
-	p.analyze()
+	if err = p.analyze(); err != nil {
+		return nil, err
+	}
 	var res shared.SQLRequestPlanner
 	if p.script.Head.AttrSelector != nil {
 		res = &AttrConditionPlanner{
@@ -123,7 +129,9 @@ func (p *simpleExpressionPlanner) planEval() (shared.SQLRequestPlanner, error) {
 		return nil, err
 	}
 
-	p.analyze()
+	if err = p.analyze(); err != nil {
+		return nil, err
+	}
 	var res shared.SQLRequestPlanner
 	if p.script.Head.AttrSelector != nil {
 		res = &AttrConditionEvaluatorPlanner{
@@ -166,10 +174,15 @@ func (p *simpleExpressionPlanner) check() error {
 	return nil
 }
 
-func (p *simpleExpressionPlanner) analyze() {
+func (p *simpleExpressionPlanner) analyze() error {
 	p.terms = make(map[string]int)
 	p.cond = p.analyzeCond(p.script.Head.AttrSelector)
+	if len(p.termIdx) > 64 {
+		// one bit of a UInt64 per condition (AttrConditionPlanner.getCond)
+		return fmt.Errorf("more than 64 different conditions in one selector are not supported")
+	}
 	p.analyzeAgg()
+	return nil
 }
 
 func (p *simpleExpressionPlanner) analyzeCond(exp *traceql_parser.AttrSelectorExp) *condition {
